@@ -10,66 +10,30 @@ open MahfModel.Sa
 
 variable {F : Type} [Field F] [LinearOrder F] [IsStrictOrderedRing F]
 
-/-- A candidate at least as good as the current solution always replaces it (any draw `u < 1`,
-which is what `gen::<f64>()` produces). Only `exp 0 = 1` is needed. -/
-theorem accept_better_or_equal (exp : F → F) (h0 : exp 0 = 1) (cur cand T u : F)
-    (hle : cand ≤ cur) (_hT : 0 < T) (hu : u < 1) : accepts exp cur cand T u = true := by
-  rcases lt_or_eq_of_le hle with h | h
-  · simp [accepts, h]
-  · subst h; simp [accepts, prob, h0, hu]
+/-- A candidate at least as good as the current solution always replaces it — for every
+temperature, every draw and every `exp` (the comparison short-circuits before `p` is looked at). -/
+theorem accept_better_or_equal (exp : F → F) (cur cand T u : F) (hle : cand ≤ cur) :
+    accepts exp cur cand T u = true ∧ drawsUsed cur cand = 0 := by
+  simp [accepts, drawsUsed, hle]
 
 example : accepts (fun x : Rat => 1 + x) 3 3 (1 / 2) (9 / 10) = true :=
-  accept_better_or_equal _ (by norm_num) _ _ _ _ (le_refl _) (by norm_num) (by norm_num)
+  (accept_better_or_equal _ _ _ _ _ (le_refl _)).1
 
-/-! #### Known finding: equal *infinite* objective values
+/-- The same on the IEEE-like carrier `Ext F` (`±∞`, `NaN`): whenever `f(cand) <= f(cur)` in the
+IEEE sense — in particular for two equal `+∞` objective values, where `p = exp(∞ − ∞) = NaN` —
+the candidate is accepted without a draw. (Before the `<=` fix in /repo this case was rejected.) -/
+theorem accept_better_or_equal_ext (exp : Ext F → Ext F) (cur cand T u : Ext F) (hle : cand ≤ cur) :
+    accepts exp cur cand T u = true ∧ drawsUsed cur cand = 0 := by
+  simp [accepts, drawsUsed, hle]
 
-`accept_better_or_equal` is about finite values (an ordered field has no `∞`). On the IEEE-like
-carrier `Ext F` the same model shows what the code does for `f(cur) = f(cand) = +∞` (two infeasible
-solutions): `∞ − ∞ = NaN`, `exp(NaN) = NaN`, `u < NaN` is false — the candidate is rejected for
-every temperature and every draw although it is as good as the current solution. -/
-
-/-- The full statement on the extended carrier (does NOT hold, see `accept_equal_inf_violates`). -/
-def AcceptBetterOrEqualExt (exp : Ext F → Ext F) : Prop :=
-  ∀ cur cand T u : Ext F, (cand < cur ∨ cand = cur) → cur ≠ .nan → (.fin 0 : Ext F) < T → u < .fin 1 →
-    accepts exp cur cand T u = true
-
-/-- Counterexample (for every `exp` that propagates NaN, every temperature, every draw). -/
-theorem accept_equal_inf_violates (exp : Ext F → Ext F) (hn : exp .nan = .nan) (T u : Ext F) :
-    accepts exp .pinf .pinf T u = false := by
-  have h1 : ((.pinf : Ext F) - .pinf) = .nan := rfl
-  have h2 : ((.nan : Ext F) / T) = .nan := by cases T <;> rfl
-  have h3 : ¬ (u < (.nan : Ext F)) := by
-    show ¬ (Ext.ltb u .nan = true)
-    cases u <;> simp [Ext.ltb]
-  have h4 : ¬ ((.pinf : Ext F) < .pinf) := by
-    show ¬ (Ext.ltb .pinf .pinf = true); simp [Ext.ltb]
-  simp [accepts, prob, h1, h2, hn, h3, h4]
-
-theorem accept_better_or_equal_ext_fails (exp : Ext F → Ext F) (hn : exp .nan = .nan) :
-    ¬ AcceptBetterOrEqualExt exp := by
-  intro h
-  have := h .pinf .pinf (.fin 1) (.fin 0) (Or.inr rfl) (by simp)
-    (by show Ext.ltb _ _ = true; simp [Ext.ltb]) (by show Ext.ltb _ _ = true; simp [Ext.ltb])
-  rw [accept_equal_inf_violates exp hn] at this
-  exact Bool.noConfusion this
-
-/-- The partial form with the excluded region explicit: on the extended carrier the statement
-holds for FINITE objective values, a finite positive temperature and a finite draw below 1. -/
-theorem accept_better_or_equal_partial (exp : F → F) (h0 : exp 0 = 1) (a b : Ext F) (cur cand T u : F)
-    (hle : cand ≤ cur) (hT : 0 < T) (hu : u < 1) :
-    accepts (Ext.lift exp a b) (.fin cur) (.fin cand) (.fin T) (.fin u) = true := by
-  have hT0 : T ≠ 0 := ne_of_gt hT
-  have := accept_better_or_equal exp h0 cur cand T u hle hT hu
-  simp only [accepts, prob, Ext.fin_sub_div _ _ _ hT0, Ext.lift, Ext.fin_lt_fin] at this ⊢
-  exact this
-
-example : accepts (Ext.lift (fun x : Rat => 1 + x) .pinf (.fin 0)) (.fin 3) (.fin 3) (.fin (1 / 2)) (.fin (9 / 10)) = true :=
-  accept_better_or_equal_partial _ (by norm_num) _ _ _ _ _ _ (le_refl _) (by norm_num) (by norm_num)
+theorem accept_equal_inf (exp : Ext F → Ext F) (T u : Ext F) :
+    accepts exp .pinf .pinf T u = true ∧ drawsUsed (.pinf : Ext F) .pinf = 0 :=
+  accept_better_or_equal_ext exp .pinf .pinf T u (by show Ext.leb _ _ = true; rfl)
 
 /-- A worse candidate is accepted exactly when the draw falls below `exp(−(f(cand) − f(cur)) / T)`. -/
 theorem accept_worse_iff (exp : F → F) (cur cand T u : F) (h : cur < cand) :
     accepts exp cur cand T u = true ↔ u < exp (-(cand - cur) / T) := by
-  have hn : ¬ cand < cur := not_lt.mpr (le_of_lt h)
+  have hn : ¬ cand ≤ cur := not_le.mpr h
   have e : (cur - cand) / T = -(cand - cur) / T := by ring
   simp [accepts, prob, hn, e]
 
@@ -138,7 +102,7 @@ theorem accept_limits {exp : F → F} (he : ExpSpec exp) (cur cand ε : F) (h : 
 
 /-- Stack frame: two single-individual populations (candidate on top, current below) are reduced
 to one population holding the survivor; everything below is untouched; at most one draw is used
-(none for a strictly better candidate). -/
+(none for a candidate that is at least as good). -/
 theorem accept_frame (exp : F → F) (T u : F) (cand cur : Ind F) (rest : Stk F) :
     acceptStep exp T u ([cand] :: [cur] :: rest) =
       (.ok, [if accepts exp cur.obj cand.obj T u then cand else cur] :: rest,
